@@ -258,6 +258,10 @@ class MoleculeResolver:
 
             for node in fragment.nodes:
                 new_node = correspondence[node]
+                # the fragment id has to be the key of the lower resolution
+                # node also if virtual nodes have been skipped before or the
+                # nodes are not iterated in the order of their keys
+                self.molecule.nodes[new_node]['fragid'] = [meta_node]
                 attrs = copy.deepcopy(self.molecule.nodes[new_node])
                 graph_frag.add_node(correspondence[node], **attrs)
                 nx.set_node_attributes(graph_frag, [meta_node], 'fragid')
